@@ -39,7 +39,7 @@ def _mk_cases(seed, shard, count):
         if r < 0.13:
             # nesting ladders: signature depth and variant depth
             if rng.random() < 0.5:
-                sig = gen.deep_signature(rng)
+                sig = gen.deep_signature(rng) if rng.random() < 0.7 else gen.misnested_signature(rng)
                 ok = wire.signature_ok(sig)
                 msg = gen.rand_message(rng, mtype=4)
                 msg["fields"] = [(c, v) for c, v in msg["fields"] if c != 8]
